@@ -126,7 +126,7 @@ def rearm(ctx, L, rule="R-REARM"):
     n = 0
     tables = ["_rcv_buffer", "_snd_buffer"] + (["_multi_pg_snd_buffer"] if L.fd else [])
     for table in tables:
-        for unroll in (1,):
+        for unroll in ((1, 2) if ctx.tier == "thorough" else (1,)):
             for r in scan_runs(ctx, L, table, unroll=unroll):
                 E = _reached(r)
                 if E is None:
@@ -390,7 +390,8 @@ def pool_pair(ctx, L, rule="R-POOL-PAIR"):
             st = [e for _, e in r.effects() if e.kind == "store"]
             if rets:
                 inst = "22 %s returns the index it marks used" % get
-                if len(st) == 1 and st[0].target[0] == "sub" and st[0].target[2] == rets[0].value and st[0].value == ("c", False):
+                from .common import affine_eq
+                if len(st) == 1 and st[0].target[0] == "sub" and affine_eq(st[0].target[2], rets[0].value) and st[0].value == ("c", False):
                     lists.add(st[0].target[1])
                     ctx.holds(rule, inst)
                 else:
